@@ -688,10 +688,22 @@ fn pert(seed: u64, n: u64) {
               header: TransactionHeaderV1 { sponsor: None, ..h1.clone() }, payload: payload.clone() };
           chk1("v1.v0_signature_reused", &t, &acc, &sp_acc); }
         drop(chk1);
-        // the sponsor signature removed while the header still names the sponsor (KF-C06-1 candidate)
+        // the sponsor signature removed while the header still names the sponsor (was KF-C06-1; must be rejected)
         let dropped = { let mut t = base1.clone(); t.signatures.sponsor = None; matches!(guarded(|| t.verify_transaction_signature(&acc, &sp_acc)), Ok(false)) };
+        // the same shape at hash level (verify_signature_transaction_sign_hash_v1 cannot see the header): informational
+        let dropped_hash_level = { let mut sg = base1.signatures.clone(); sg.sponsor = None; res_char(&guarded(|| verify_signature_transaction_sign_hash_v1(&acc, &sp_acc, &hash, &sg))) };
+        // the converse shape: the header names NO sponsor but a sponsor signature is supplied, made over the
+        // hash of that very header; it is checked against the sponsor keys the caller passes
+        let h_none = TransactionHeaderV1 { sponsor: None, ..h1.clone() };
+        let hash_none = compute_transaction_sign_hash_v1(&h_none, &payload);
+        let conv = AccountTransactionV1 { signatures: TransactionSignaturesV1 { sender: ak.sign_transaction_hash(&hash_none), sponsor: Some(sp.sign_transaction_hash(&hash_none)) }, header: h_none.clone(), payload: payload.clone() };
+        let conv_ok = res_char(&guarded(|| conv.verify_transaction_signature(&acc, &sp_acc)));
+        let conv_wrong_keys = res_char(&guarded(|| conv.verify_transaction_signature(&acc, &acc)));
+        let conv_stale_sig = { let mut t = conv.clone(); t.signatures.sponsor = base1.signatures.sponsor.clone(); res_char(&guarded(|| t.verify_transaction_signature(&acc, &sp_acc))) };
+        let plain_ok = { let mut t = conv.clone(); t.signatures.sponsor = None; res_char(&guarded(|| t.verify_transaction_signature(&acc, &sp_acc))) };
         println!("{}", json!({"k":"pert","v":1,"base_ok":base1_ok,"rejected":out1.iter().map(|(a,b)| json!([a,b])).collect::<Vec<_>>(),
-            "sponsor_sig_dropped_rejected":dropped}));
+            "sponsor_sig_dropped_rejected":dropped,"sponsor_sig_dropped_hash_level":dropped_hash_level,
+            "converse_signed":conv_ok,"converse_wrong_sponsor_keys":conv_wrong_keys,"converse_stale_sponsor_sig":conv_stale_sig,"unsponsored_v1":plain_ok}));
     }
 }
 
